@@ -24,6 +24,7 @@ struct Effect {
 };
 
 extern std::vector<Effect> effects;
+extern std::vector<std::string> badFdUses;  // fd-taking calls of the code under test that failed with EBADF (closed descriptor used / double close)
 extern double killLatencySec;  // virtual time a kill(2) call takes (0 by default)
 extern bool logOpens;       // also record every file access as an "open" effect
 extern long accessCount;    // file-access points seen (fault-injection index)
